@@ -153,6 +153,21 @@ class SeriesOps:
             return s.with_term(("map", ("func", fn.qualname), s.term))
         if isinstance(fn, dict):
             return s.with_term(("mapdict", to_term(fn), s.term))
+        # a library / builtin function passed by reference: s.apply(math.ceil) is s.apply(lambda x: math.ceil(x)) (eta-expansion)
+        fexpr = None
+        if isinstance(node, ast.Call):
+            fexpr = node.args[0] if node.args else next((k.value for k in node.keywords if k.arg in ("func", "arg")), None)
+        if fexpr is not None and isinstance(fexpr, (ast.Attribute, ast.Name)) and not isinstance(fn, (Ser, Frame)):
+            try:
+                lam = ast.Lambda(args=ast.arguments(posonlyargs=[], args=[ast.arg(arg="__eta_x")], kwonlyargs=[], kw_defaults=[], defaults=[]),
+                                 body=ast.Call(func=fexpr, args=[ast.Name(id="__eta_x", ctx=ast.Load())], keywords=[]))
+                ast.copy_location(lam, fexpr)
+                ast.fix_missing_locations(lam)
+                ref = self.I.eval(lam)
+                if isinstance(ref, FuncRef):
+                    return s.with_term(to_term(self.I.call_merged(ref, [s.term], {}, node)))
+            except RecursionError:
+                pass
         return s.with_term(("map", to_term(fn), s.term))
 
     # ------------------------------------------------------------------ str accessor
